@@ -37,8 +37,8 @@ CHECKS = {
          "resolution pass proved private-route-free and path-faithful for inline module trees under three decidable restrictions; local shadowing; four routes refuted with witnesses",
          "external file modules, type aliases in modules, macros not modelled; known findings F8 F9 F17a F17b"),
  "C13": ("proof", "coq-lexer", "machine-checked proof in Coq + exhaustive short-string correspondence",
-         "tiling / re-split / trivia-once theorems for every input and every character classification over a transcription of tokenizer.rs + preparser.rs with tables regenerated from source; CST-leaves clause checked on the real code only",
-         "chumsky combinator semantics trusted as transcribed; C13_cst_leaves not yet a Coq theorem; known finding F5"),
+         "tiling / re-split / trivia-once theorems for every input and every character classification over a transcription of tokenizer.rs + preparser.rs with tables regenerated from source; CST-leaves clause: theorem C13_cst_leaves over the complete parser model (Props/C04.v, rebuilt by the C04 check) and checked on the real code here",
+         "chumsky combinator semantics trusted as transcribed; known finding F5"),
  "C09": ("proof", "coq-staging", "machine-checked proof in Coq + expanded-AST / output correspondence + tables regenerated from source",
          "quote/splice identity, whole-program expansion agreement, f!(a) = splice of f(a), exact lifting, combinator arity tables (regenerated from translate_staging.rs / codegen_combinators.rs) over a transcription of the staging translation and the stage-0 combinator evaluator",
          "no Coq semantics of main-stage code (normal form vs original meaning covered by output comparison); plugin macros, stage-0 type checker outside the model; known findings F27 F28; F19 (half-float immediates) repaired"),
